@@ -95,7 +95,12 @@ CJ_DELETE_FN(cj_delete_0, __CPROVER_assert(0, "cjson-model.depth: tree deeper th
 CJ_DELETE_FN(cj_delete_1, cj_delete_0(c->child))
 CJ_DELETE_FN(cj_delete_2, cj_delete_1(c->child))
 CJ_DELETE_FN(cj_delete_3, cj_delete_2(c->child))
-void cJSON_Delete(cJSON *c) { cj_delete_3(c); }
+#ifndef CJ_DEPTH
+#define CJ_DEPTH 3   /* units with shallow trees lower this to keep the unrolled chain small */
+#endif
+#define CJ_PASTE_(a, b) a##b
+#define CJ_PASTE(a, b) CJ_PASTE_(a, b)
+void cJSON_Delete(cJSON *c) { CJ_PASTE(cj_delete_, CJ_DEPTH)(c); }
 int cJSON_GetArraySize(const cJSON *array)
 {
 	int n = 0;
@@ -176,7 +181,11 @@ static cJSON *cj_dup_none(const cJSON *c) { (void)c; __CPROVER_assert(0, "cjson-
 CJ_DUP_FN(cj_dup_0, cj_dup_none(c))
 CJ_DUP_FN(cj_dup_1, cj_dup_0(c, 1))
 CJ_DUP_FN(cj_dup_2, cj_dup_1(c, 1))
+#if CJ_DEPTH >= 2
 cJSON *cJSON_Duplicate(const cJSON *item, cJSON_bool recurse) { return cj_dup_2(item, recurse); }
+#else
+cJSON *cJSON_Duplicate(const cJSON *item, cJSON_bool recurse) { return cj_dup_1(item, recurse); }
+#endif
 cJSON_bool cJSON_ReplaceItemInObject(cJSON *object, const char *string, cJSON *newitem)
 {
 	cJSON *old = cJSON_GetObjectItem(object, string);
@@ -193,9 +202,10 @@ cJSON_bool cJSON_ReplaceItemInObject(cJSON *object, const char *string, cJSON *n
 	cJSON_Delete(old);
 	return true;
 }
+const cJSON *verif_cj_last_printed;  /* the tree most recently rendered (units inspect it in their send stubs) */
 char *cJSON_PrintUnformatted(const cJSON *item)
 {
-	(void)item;
+	verif_cj_last_printed = item;
 	char *s = cj_malloc(CJ_PRINT_MAX);
 	if (s == NULL) return NULL;
 	size_t n;
